@@ -128,17 +128,17 @@ theorem splitOn_safelyUnquote (U : List UInt8) {c : Char} (hc : Sep c) (hsp : c 
 
 /-! ### safely_quote and raw `/` -/
 
-theorem safelyQuote_append_sep {c : Char} (hc : Sep c) (hq : quoteSafe c = true) (a b : Str) :
-    safelyQuote (a ++ c :: b) = safelyQuote a ++ c :: safelyQuote b := by
-  unfold safelyQuote
+theorem safelyQuoteBy_append_sep {f : Char → Bool} {c : Char} (hc : Sep c) (hq : f c = true) (a b : Str) :
+    safelyQuoteBy f (a ++ c :: b) = safelyQuoteBy f a ++ c :: safelyQuoteBy f b := by
+  unfold safelyQuoteBy
   rw [tokens_append_sep hc]
-  simp only [quoteToks, List.flatMap_append, List.flatMap_cons, quoteTok, hq, if_true,
+  simp only [quoteToksBy, List.flatMap_append, List.flatMap_cons, quoteTokBy, hq, if_true,
     render_append]
   simp [render, renderTok]
 
-theorem safelyQuote_join {c : Char} (hc : Sep c) (hq : quoteSafe c = true)
+theorem safelyQuoteBy_join {f : Char → Bool} {c : Char} (hc : Sep c) (hq : f c = true)
     (parts : List Str) (hne : parts ≠ []) :
-    safelyQuote (join [c] parts) = join [c] (parts.map safelyQuote) := by
+    safelyQuoteBy f (join [c] parts) = join [c] (parts.map (safelyQuoteBy f)) := by
   induction parts with
   | nil => exact absurd rfl hne
   | cons p ps ih =>
@@ -147,19 +147,19 @@ theorem safelyQuote_join {c : Char} (hc : Sep c) (hq : quoteSafe c = true)
     | cons q qs =>
       simp only [join, List.map_cons]
       have : p ++ [c] ++ join [c] (q :: qs) = p ++ c :: join [c] (q :: qs) := by simp
-      rw [this, safelyQuote_append_sep hc hq, ih (by simp)]
+      rw [this, safelyQuoteBy_append_sep hc hq, ih (by simp)]
       simp [join]
 
 /-- a separator that does not occur in the input does not occur in the quoted output -/
-theorem not_mem_safelyQuote_of_not_mem {c : Char} (hc : Sep c) (s : Str) (hs : c ∉ s) :
-    c ∉ safelyQuote s := by
+theorem not_mem_safelyQuoteBy_of_not_mem (f : Char → Bool) {c : Char} (hc : Sep c) (s : Str) (hs : c ∉ s) :
+    c ∉ safelyQuoteBy f s := by
   intro hmem
-  simp only [safelyQuote, render, quoteToks, List.mem_flatMap] at hmem
+  simp only [safelyQuoteBy, render, quoteToksBy, List.mem_flatMap] at hmem
   obtain ⟨t', ⟨t, ht, ht'⟩, hch⟩ := hmem
   have hw := wf_tokens s t ht
   cases t with
   | raw c0 =>
-    simp only [quoteTok] at ht'
+    simp only [quoteTokBy] at ht'
     split at ht'
     · simp only [List.mem_singleton] at ht'
       subst ht'
@@ -178,7 +178,7 @@ theorem not_mem_safelyQuote_of_not_mem {c : Char} (hc : Sep c) (s : Str) (hs : c
       · rw [e] at hc; have := hc.2; rw [hcan.1] at this; cases this
       · rw [e] at hc; have := hc.2; rw [hcan.2] at this; cases this
   | esc h1 h2 =>
-    simp only [quoteTok, List.mem_singleton] at ht'
+    simp only [quoteTokBy, List.mem_singleton] at ht'
     subst ht'
     simp only [renderTok, List.mem_cons, List.not_mem_nil, or_false] at hch
     rcases hch with e | e | e
@@ -186,25 +186,53 @@ theorem not_mem_safelyQuote_of_not_mem {c : Char} (hc : Sep c) (s : Str) (hs : c
     · rw [e] at hc; have := hc.2; rw [hw.1] at this; cases this
     · rw [e] at hc; have := hc.2; rw [hw.2] at this; cases this
   | stray =>
-    simp only [quoteTok, List.mem_singleton] at ht'
-    subst ht'
-    simp only [renderTok, List.mem_cons, List.not_mem_nil, or_false] at hch
-    rcases hch with e | e | e
-    · exact hc.1 e
-    · rw [e] at hc; exact absurd hc.2 (by decide)
-    · rw [e] at hc; exact absurd hc.2 (by decide)
+    simp only [quoteTokBy] at ht'
+    split at ht'
+    · simp only [List.mem_singleton] at ht'
+      subst ht'
+      simp only [renderTok, List.mem_singleton] at hch
+      exact hc.1 hch
+    · simp only [List.mem_singleton] at ht'
+      subst ht'
+      simp only [renderTok, List.mem_cons, List.not_mem_nil, or_false] at hch
+      rcases hch with e | e | e
+      · exact hc.1 e
+      · rw [e] at hc; exact absurd hc.2 (by decide)
+      · rw [e] at hc; exact absurd hc.2 (by decide)
 
-theorem splitOn_safelyQuote {c : Char} (hc : Sep c) (hq : quoteSafe c = true) (s : Str) :
-    splitOn (safelyQuote s) c = (splitOn s c).map safelyQuote := by
+theorem splitOn_safelyQuoteBy {f : Char → Bool} {c : Char} (hc : Sep c) (hq : f c = true) (s : Str) :
+    splitOn (safelyQuoteBy f s) c = (splitOn s c).map (safelyQuoteBy f) := by
   have h1 : s = join [c] (splitOn s c) := (join_splitOn c s).symm
   have hne := splitOn_ne_nil s c
   conv => lhs; rw [h1]
-  rw [safelyQuote_join hc hq _ hne]
+  rw [safelyQuoteBy_join hc hq _ hne]
   apply splitOn_join
   · simpa using hne
   · intro p hp
     simp only [List.mem_map] at hp
     obtain ⟨p0, hp0, rfl⟩ := hp
-    exact not_mem_safelyQuote_of_not_mem hc p0 (not_mem_of_mem_splitOn c s p0 hp0)
+    exact not_mem_safelyQuoteBy_of_not_mem f hc p0 (not_mem_of_mem_splitOn c s p0 hp0)
+
+/-! ### the default `safe="/"` -/
+
+theorem safelyQuote_append_sep {c : Char} (hc : Sep c) (hq : quoteSafe c = true) (a b : Str) :
+    safelyQuote (a ++ c :: b) = safelyQuote a ++ c :: safelyQuote b := by
+  simp only [safelyQuote_eq_by]; exact safelyQuoteBy_append_sep hc hq a b
+
+theorem safelyQuote_join {c : Char} (hc : Sep c) (hq : quoteSafe c = true)
+    (parts : List Str) (hne : parts ≠ []) :
+    safelyQuote (join [c] parts) = join [c] (parts.map safelyQuote) := by
+  have e : safelyQuote = safelyQuoteBy quoteSafe := funext safelyQuote_eq_by
+  rw [e]; exact safelyQuoteBy_join hc hq parts hne
+
+/-- a separator that does not occur in the input does not occur in the quoted output -/
+theorem not_mem_safelyQuote_of_not_mem {c : Char} (hc : Sep c) (s : Str) (hs : c ∉ s) :
+    c ∉ safelyQuote s := by
+  rw [safelyQuote_eq_by]; exact not_mem_safelyQuoteBy_of_not_mem _ hc s hs
+
+theorem splitOn_safelyQuote {c : Char} (hc : Sep c) (hq : quoteSafe c = true) (s : Str) :
+    splitOn (safelyQuote s) c = (splitOn s c).map safelyQuote := by
+  have e : safelyQuote = safelyQuoteBy quoteSafe := funext safelyQuote_eq_by
+  rw [e]; exact splitOn_safelyQuoteBy hc hq s
 
 end Ural.Quote
